@@ -69,7 +69,9 @@ def make_signal(I, state, cls, name="asig", atom=R, dt_atom=DT, n="n", flags="co
         names |= {"_cached_response_spectra", "_cached_disp_and_velo"}
     for a in names:
         o.attrs[a] = fl()
-    stale = lambda nm: AV(kind=K_ARRAY, dtype="top", shape=None, origin=frozenset(["o%d.%s" % (o.id, nm)]),
+    shapes = {"_velocity": (LinExpr(n),), "_displacement": (LinExpr(n),), "_s_a": (LinExpr(periods_n),),
+              "_s_v": (LinExpr(periods_n),), "_s_d": (LinExpr(periods_n),), "_smooth_fa_spectrum": (LinExpr("F"),)}
+    stale = lambda nm: AV(kind=K_ARRAY, dtype="top", shape=shapes.get(nm), origin=frozenset(["o%d.%s" % (o.id, nm)]),
                           tags=frozenset(["stored:" + nm]), alg={atom: TOPI, dt_atom: TOPI}, indef=True)
     for nm in ("_fa_spectrum", "_fa_freqs", "_smooth_fa_spectrum"):
         o.attrs[nm] = stale(nm)
@@ -88,6 +90,8 @@ def make_signal(I, state, cls, name="asig", atom=R, dt_atom=DT, n="n", flags="co
         for nm in ("t_b01", "t_b05", "t_b10", "a_rms01", "a_rms05", "a_rms10", "t_595", "sd_start", "sd_end",
                    "arias_intensity"):
             o.attrs[nm] = AV(kind=K_SCALAR, dtype="real", shape=())
+    for k, v in list(o.attrs.items()):
+        o.attrs[k] = v.replace(tags=v.tags | frozenset(["attr:" + k]))
     return o, I.obj_av(o)
 
 
